@@ -128,7 +128,7 @@ static int cp_lvl; static uint8_t cp_uk; static uint64_t cp_tag;
 /* the edit itself */
 static ldb_edit_t g_edit, g_edit2;
 static meta_entry_t me_0, me_1; static uint8_t mks_0[9], mkl_0[9], mks_1[9], mkl_1[9];
-static void *g_newf[NADD], *g_newf2[NADD];
+static void *g_newf[NADD + 1], *g_newf2[NADD + 1];   /* one spare slot: see mk_edit */
 static file_entry_t de_0, de_1;
 static ikey_entry_t ce_0; static uint8_t cek_0[9]; static void *g_cps[1];
 /* clones */
@@ -180,7 +180,9 @@ static void edit_scalars(ldb_edit_t *e) {
 static void mk_edit(size_t nadd, int la0, int la1, size_t ndel, int ld0, int ld1, size_t ncp, int lcp) {
   n_add = nadd; n_del = ndel; n_cp = ncp;
   edit_scalars(&g_edit);
-  g_newf[0] = &me_0; g_newf[1] = &me_1;
+  /* CBMC explores one loop iteration more than is feasible (under a false guard): the slot after the last element holds a valid
+     entry, so that this phantom iteration does not read an unconstrained pointer (writes through one alias every object) */
+  g_newf[0] = &me_0; g_newf[1] = &me_1; g_newf[2] = &me_1;
   g_edit.new_files.items = g_newf; g_edit.new_files.length = nadd; g_edit.new_files.alloc = NADD;
   /* both entries of each kind exist as objects with their (constant) levels; the list length / set membership says how many are used */
   mk_added(0, la0, &me_0, mks_0, mkl_0);
@@ -268,7 +270,8 @@ static void world(size_t n0, size_t n1) {
   ASSUME(n0 <= NBASE && n1 <= NBASE);
   g_nsets = 0;
   mk_version();
-  mk_level(0, n0); mk_level(1, n1);
+  /* both model files of each level exist as objects (phantom loop iterations read slot n) */
+  mk_level(0, 3); mk_level(1, 3); mk_level(0, n0); mk_level(1, n1);
   /* the base version is sorted by (smallest, number) at every level - builder_save_to's own postcondition, assumed for its input */
   ASSUME(BASE_SORTED(0) && BASE_SORTED(1));
   { int l; for (l = 0; l < LDB_NUM_LEVELS; l++) ldb_buffer_init(&g_vset.compact_pointer[l]); }
@@ -332,7 +335,7 @@ void h_builder_seq(void) {
   /* edit with the added file */
   n_add = 1; n_del = 1; n_cp = 0;
   edit_scalars(&g_edit); edit_scalars(&g_edit2);
-  g_newf[0] = &me_0;
+  g_newf[0] = &me_0; g_newf[1] = &me_0; g_newf[2] = &me_0; g_newf2[0] = &me_0; g_newf2[1] = &me_0;
   mk_added(0, 1, &me_0, mks_0, mkl_0);
   ASSUME(a_sz[0] < ((uint64_t)1 << 44));
   g_edit.new_files.items = g_newf; g_edit.new_files.length = 1; g_edit.new_files.alloc = NADD;
